@@ -25,6 +25,7 @@ import os
 import random
 import sys
 import tempfile
+import time
 from decimal import Decimal
 from typing import Any, Callable, Dict, List, Optional, Tuple, Type, Union
 
@@ -36,7 +37,7 @@ from jsonargparse.typing import Path_fr, PositiveInt
 
 PER_CLASS = 3
 LIMIT = 10       # CPU seconds per call, thorough tier
-QUICK_LIMIT = 4  # CPU seconds per call, quick tier (an ordinary call takes < 0.3 s of CPU)
+QUICK_LIMIT = 3  # CPU seconds per call, quick tier (an ordinary call takes < 0.3 s of CPU)
 
 
 # ------------------------------------------------------------------ parser shapes: build(eoe) and the known option names with a type label
@@ -266,7 +267,7 @@ PYVALS = [("None", lambda: None), ("True", lambda: True), ("1", lambda: 1), ("-1
           ("int", lambda: int), ("len", lambda: len), ("lambda", lambda: (lambda: 1)), ("Namespace()", lambda: Namespace()), ("Namespace(a=1)", lambda: Namespace(a=1)),
           ("Namespace(x=1)", lambda: Namespace(x=1)), ("Ellipsis", lambda: Ellipsis), ("NotImplemented", lambda: NotImplemented), ("range(3)", lambda: range(3)),
           ("iter([])", lambda: iter([])), ("1+2j", lambda: complex(1, 2)), ("Decimal('1')", lambda: Decimal("1")), ("selfref-list", lambda: _selfref_list()),
-          ("selfref-dict", lambda: _selfref_dict()), ("deep-list-3000", lambda: _deep_list(3000)), ("deep-dict-3000", lambda: _deep_dict(3000)), ("Color.red", lambda: Color.red),
+          ("selfref-dict", lambda: _selfref_dict()), ("deep-list-3000", lambda: _deep_list(3000)), ("deep-dict-300", lambda: _deep_dict(300)), ("Color.red", lambda: Color.red),
           ("DC(1)", lambda: DC(1)), ("Base(1)", lambda: Base(1)), ("PosixPath", lambda: __import__("pathlib").Path("x")), ("bytearray", lambda: bytearray(b"x")),
           ("str-subclass", lambda: _Str("1")), ("int-subclass", lambda: _Int(1)), ("dict-subclass", lambda: _Dict(x=1))]
 OBJ_KEYS = ["", ".", "..", "a.", ".a", "a..b", "K.", "K..x", "K.x", " ", "K ", "-K", "--K", "K+", "__path__", "__default_config__", "help", "print_config", "K.__path__",
@@ -381,7 +382,7 @@ def wants_exit0(argv):
 def verdict(eoe, r, argv):
     """The contract table.  Returns (kind, what, tag) for a violation, or (None, outcome class, '')."""
     if r["kind"] == "timeout":
-        return "timeout", "no result within the CPU time limit (10 s thorough / 4 s quick; an ordinary call takes < 0.3 s)", "Timeout"
+        return "timeout", "no result within the CPU time limit (10 s thorough / 3 s quick; an ordinary call takes < 0.3 s)", "Timeout"
     if r["kind"] == "ok":
         if not isinstance(r["value"], Namespace):
             return "notnamespace", f"returned {type(r['value']).__name__}", type(r["value"]).__name__
@@ -439,6 +440,7 @@ class Ctx:
         self.limit = LIMIT if self.thorough else QUICK_LIMIT
         self.cached = None
         self.unstable = 0
+        self.maxcpu = 0.0
 
     # -- input selection
     def rep(self, name):
@@ -486,9 +488,14 @@ class Ctx:
         h.nontrivial((self.shape, mode, method, canon))
         reuse = not own_parser and not (argv is not None and wants_exit0(argv))
         p = self.parser() if reuse else (None if own_parser else self.build(self.eoe))
+        t0 = time.process_time()
         r = run(lambda: fn(p), limit=self.limit, stdin=stdin)
+        if r["kind"] != "timeout":
+            self.maxcpu = max(self.maxcpu, time.process_time() - t0)
         kind, what, tag = verdict(self.eoe, r, argv)
-        if kind is not None and reuse:
+        if kind == "timeout":
+            self.cached = None  # (no confirmation run: an endless loop does not depend on what the parser parsed before)
+        elif kind is not None and reuse:
             self.cached = None
             r = run(lambda: fn(self.build(self.eoe)), limit=self.limit, stdin=stdin)
             kind2, what, tag = verdict(self.eoe, r, argv)
@@ -523,6 +530,7 @@ def work(job):
             os.chdir(cwd)
             os.chmod(files.map["<unreadable>"], 0o600)
     c.h.stats["unstable"] = c.unstable
+    c.h.stats["max_cpu_s_of_a_finished_call"] = round(c.maxcpu, 2)
     return c.h
 
 
@@ -574,7 +582,7 @@ def do_argv_malformed(c):
                 c.args(f"{cn}={short(v)}", sub_argv(c.shape, name, f"{opt}={rv}"), trig=f"{variant}={short(v)}")
                 if c.thorough and v in QUICK_VALUES or v in ("1", ""):
                     c.args(f"{cn} {short(v)}", sub_argv(c.shape, name, opt, rv), trig=f"{variant} {short(v)}")
-    if c.first:
+    if c.first and (c.thorough or c.shape not in ("jsonnet", "omegaconf")):
         for g in GLOBAL_NAMES:
             c.args(short(g), [g])
             for v in values:
@@ -622,7 +630,7 @@ def do_text(c):
 
     if c.first:
         for text in TEXT_GLOBAL:
-            ways(text, short(text), c.thorough or (not eoe and c.shape in ("flat", "subcommands", "jsonnet")), selfref=text in SELFREF)
+            ways(text, short(text), c.thorough or (not eoe and c.shape in ("flat", "subcommands")), selfref=text in SELFREF)
         # paths given directly to parse_path / as default config file
         for v in V_PATHS + ["", " ", "-", "\n", "\ud800", "<good>\x00"]:
             rv = files.sub(v)
@@ -634,7 +642,7 @@ def do_text(c):
             if not c.thorough and v in V_PATHS:
                 continue
             rv = files.sub(v)
-            ways(nest(name, rv), f"<{label}>: {short(v)}", c.thorough or (v in QUICK_VALUES[:8] and not eoe and c.rep(name)), selfref=v in SELFREF, trig=": " + short(v))
+            ways(nest(name, rv), f"<{label}>: {short(v)}", c.thorough or (v in QUICK_VALUES[:6] and not eoe and c.rep(name) and c.shape in ("flat", "nested", "subclass")), selfref=v in SELFREF, trig=": " + short(v))
             if "." in name and (c.thorough or v in QUICK_VALUES) and v not in SELFREF:
                 ways(f"{name}: {rv}", f"dotted <{label}>: {short(v)}", False, trig="dotted: " + short(v))
             # the per-argument environment variable
@@ -671,14 +679,14 @@ def do_object(c):
             if not c.thorough and (vname.startswith(("deep-", "selfref-list")) and not c.rep(name) or c.shape in ("jsonnet", "omegaconf") and vname not in QUICK_PYVALS):
                 continue
             for style in ("nested", "dotted"):
-                if style == "dotted" and "." not in name:
+                if style == "dotted" and ("." not in name or vname in SELFREF and not c.thorough):
                     continue
 
                 def go(p):
                     v = mk()
                     return p.parse_object(put({}, name, v) if style == "nested" else {name: v})
                 c.call("parse_object", f"{style}:<{label}>={vname}", {"cfg_obj": f"{{{name!r}: {vname}}} ({style})"}, go, trig=f"<{label}>={vname}")
-            if c.thorough or vname in ("None", "1", "'x'", "{}", "[]", "object()", "{'class_path':1}"):
+            if c.thorough or vname in ("None", "1", "'x'", "{}", "[]", "object()", "{'class_path':1}") and not eoe:
                 def go_ns(p):
                     ns = Namespace()
                     ns[name] = mk()
@@ -744,6 +752,8 @@ def main():
         for si in range(len(SHAPES)):
             n = len(SHAPES[si][2])
             nc = 4 if part == "random" else n if h.thorough else max(1, n // 2)
+            if not h.thorough and SHAPES[si][0] == "jsonnet" and part in ("argv2", "object"):
+                continue  # (a jsonnet evaluation costs ~50 ms; the quick tier sends this shape only option values and documents)
             for eoe in (False, True):
                 for ci in range(nc):
                     jobs.append((si, eoe, part, ci, nc, h.thorough, h.seed))
@@ -776,7 +786,7 @@ def main():
             else:
                 h.nontrivial(c[1])
         for k, v in rec.stats.items():
-            stats[k] = stats.get(k, 0) + v
+            stats[k] = max(stats.get(k, 0), v) if k.startswith("max") else stats.get(k, 0) + v
     os.environ.clear()
     os.environ.update(saved_env)
     h.note(f"outcomes: {stats}; defect classes (kind:exception@site): {len(listed)}; violation keys listed: {len(h.viol_keys)} (at most {PER_CLASS} per class)")
